@@ -349,3 +349,27 @@ def option_test(t, c, pred):
     if y is None or not pred(y):
         return None
     return {"d0": "none", "d1": "some", "ok": "some", "err": "none"}.get(out)
+
+
+def writer_roots(facts, fname):
+    """Known functions on whose behalf a write in `fname` happens (fname itself when it is known)."""
+    return roots_of(facts, fname) or {fname}
+
+
+def calls_with_helpers(facts, fn, seg, _seen=None):
+    """(function, bb, terminator) of every call whose callee's last path segment is `seg`, in fn and in the new
+    helpers (and closures) it reaches."""
+    seen = _seen if _seen is not None else set()
+    out = []
+    for bb, t in fn.calls():
+        p = local_callee(t) or ""
+        if last_seg(p) == seg:
+            out.append((fn, bb, t))
+        if p in facts.fns and is_new_fn(p) and p not in seen:
+            seen.add(p)
+            out += calls_with_helpers(facts, facts.fns[p], seg, seen)
+    for cl in facts.closures_of(fn.name):
+        if cl.name not in seen:
+            seen.add(cl.name)
+            out += calls_with_helpers(facts, cl, seg, seen)
+    return out
